@@ -143,6 +143,12 @@ fn differential(rep: &mut Report, rng: &mut Rng, sseed: u64) {
     for j in case.spec.jobs.iter_mut() {
         j.size = j.size.min(80_000);
     }
+    // every other differential: a stray 0-RTT packet for this connection reaches the server (no 0-RTT keys:
+    // it is dropped and logged as such) - dropping must look the same to the applications under every exporter
+    if rng.bool() {
+        case.spec.params.stray_0rtt_ms = Some(rng.range(20, 300));
+        rep.count("scenarios_with_stray_0rtt_packet");
+    }
     let configs: [(LogMode, bool, &str); 5] = [
         (LogMode::Noop, false, "no-qlog-call"),
         (LogMode::Noop, true, "noop-logger"),
@@ -259,6 +265,10 @@ pub fn run(args: &Args, rep: &mut Report) {
         // (a) events of a lossy lifetime, alternating capture / raw
         let mut case = if i % 3 == 2 { c02::gen_unbounded(&mut r, sseed, 0) } else { c02::gen_bounded(&mut r, sseed) };
         case.spec.log = if i % 2 == 0 { LogMode::Capture } else { LogMode::Raw };
+        if i % 3 == 1 {
+            case.spec.params.stray_0rtt_ms = Some(r.range(20, 300));
+            rep.count("scenarios_with_stray_0rtt_packet");
+        }
         let out = scenario::run(&case.spec);
         rep.evaluations += 1;
         check_outcome_events(rep, &out, &case.to_json());
